@@ -27,6 +27,11 @@
 //     (dev > optional > prod, the order Read uses) may be updated there too or left
 //     alone, whether or not its version equals the effective one. peerDependencies are
 //     not requirements (Read ignores them) and must be preserved.
+//   - package.json: an update of a package that is not in the file at all is outside the property's
+//     quantifier ("updates addressed to requirements present in the file"): nothing is demanded for
+//     it, it is only mixed into update lists to perturb the writer's state. A STALE update (package
+//     present, VersionFrom different from the file) must either make Write fail or be applied.
+//     For one multiset of updates every order of the list must give the same outcome class.
 //   - pom.xml: whether a property-based version is changed by patching the property or
 //     by replacing the <version> text with a literal, provided the effective
 //     (interpolated) version is the requested one and nothing else changed.
@@ -99,6 +104,10 @@ type updSpec struct {
 	ArtifactType string `json:"artifactType,omitempty"` // maven <type> when not jar
 	Classifier   string `json:"classifier,omitempty"`   // maven <classifier>
 	To           string `json:"to"`
+	// From (npm): a VersionFrom that differs from the version in the file (a stale update).
+	From string `json:"from,omitempty"`
+	// Absent (npm): the package is not in the file at all.
+	Absent bool `json:"absent,omitempty"`
 	// Add: the requirement is NOT in the manifest and has to be added to the project's
 	// dependencyManagement (the way override patches for transitive dependencies arrive).
 	Add bool `json:"add,omitempty"`
@@ -112,6 +121,9 @@ type caseSpec struct {
 	Chain   []string          `json:"chain,omitempty"` // pom: child, parent, grandparent paths
 	Updates []updSpec         `json:"updates"`
 	Family  string            `json:"family,omitempty"`
+	// OrderCheck (npm): also run every other order of Updates and demand the same outcome class
+	// (Write error vs. success).
+	OrderCheck bool `json:"orderCheck,omitempty"`
 }
 
 // disc is one discrepancy between implementation and oracle.
@@ -189,7 +201,7 @@ func caseKey(cs *caseSpec) string {
 		fmt.Fprintf(h, "%s\x00%s\x00", p, cs.Files[p])
 	}
 	for _, u := range cs.Updates {
-		fmt.Fprintf(h, "%s\x01%s\x01%s\x01%s\x01%s\x01%v\x02", u.Name, u.KnownAs, u.ArtifactType, u.Classifier, u.To, u.Add)
+		fmt.Fprintf(h, "%s\x01%s\x01%s\x01%s\x01%s\x01%v\x01%s\x01%v\x02", u.Name, u.KnownAs, u.ArtifactType, u.Classifier, u.To, u.Add, u.From, u.Absent)
 	}
 	return hex.EncodeToString(h.Sum(nil)[:12])
 }
@@ -306,6 +318,12 @@ func fmtUpdates(us []updSpec) string {
 		}
 		if u.Add {
 			n = "+" + n
+		}
+		if u.Absent {
+			n = "absent:" + n
+		}
+		if u.From != "" {
+			n += "(stale from " + u.From + ")"
 		}
 		p = append(p, n+"->"+u.To)
 	}
